@@ -5,7 +5,7 @@ import ast
 
 from sa.effects import Effects, SETTER_STATE
 from sa.model import AnalysisError, calls_in, walk_no_nested
-from sa.paths import function_paths, end_kind, consistent
+from sa.paths import function_paths, end_kind, consistent, must_raise
 from sa.util import U, writes_of, Env, TupleItem
 
 EXPLANATION = (
@@ -376,6 +376,9 @@ def run(ctx):
         for s in path:
             if s[0] == "cond" and "binning" in U(s[1]) and "all(" in U(s[1]) and end_kind(path) == "raise":
                 okinit = True
+    n_mr, off_mr = must_raise(init.node, lambda e: "binning" in U(e) and "all(" in U(e), when=False)
+    n_mr2, off_mr2 = must_raise(init.node, lambda e: "binning" in U(e) and "all(" in U(e), when=True)
+    okinit = okinit and (n_mr + n_mr2 >= 1) and (not off_mr or not off_mr2)
     ctx.check(okinit, "C18.d", "HistogramCollection.__init__", "raises when members' binnings differ",
               "the constructor no longer refuses members with differing binnings", init.where)
 
